@@ -319,6 +319,69 @@ Proof.
   - rewrite Hd. exact Hc.
 Qed.
 
+(* ---- clause 2611: after a step pacman is never alive in a cell with a baddie ----------------------- *)
+Lemma overlap_loop_false_go cf cands : forall g r g' r',
+  overlap_loop cf false cands g r = LGo g' r' ->
+  g' = g /\ r' = r /\
+  existsb (fun j => negb (Nat.eqb j (pc_pac cf)) && is_baddie (kind_of cf j)) cands = false.
+Proof.
+  induction cands as [|j rest IH]; intros g r g' r' H; cbn [overlap_loop] in H.
+  - inversion H. auto.
+  - cbn [existsb]. destruct (Nat.eqb j (pc_pac cf)); cbn [negb andb orb].
+    + eapply IH; exact H.
+    + destruct (is_baddie (kind_of cf j)).
+      * destruct (agent g (pc_pac cf)) as [a|]; [|discriminate].
+        destruct (a_pos a) as [q|]; [|discriminate].
+        destruct (remove (set_agent g (pc_pac cf) (with_health a 0)) (pc_pac cf) q); discriminate.
+      * eapply IH; exact H.
+Qed.
+
+Lemma shares_b_inactive cf g : pac_active cf g = false -> shares_b cf g = false.
+Proof. intro H. unfold shares_b. destruct (pac_cell cf g); [rewrite H|]; reflexivity. Qed.
+
+Theorem pm_step_clause_2611 f cf st acts :
+  ps_bad st = false -> ps_bad (pm_step_gen f cf st acts) = false ->
+  shares_b cf (ps_grid (pm_step_gen f cf st acts)) = false.
+Proof.
+  intros Hb. unfold pm_step_gen.
+  destruct (assoc acts (pc_pac cf)) as [ca|]; [|cbn; discriminate].
+  destruct (move_drift (ps_grid st) (pc_pac cf) ca) as [b g1| | |]; try (cbn; discriminate).
+  destruct (teleport f g1 (pc_pac cf)) as [g2|g2]; [|cbn; discriminate].
+  destruct (pac_cell cf g2) as [p|]; [|cbn; discriminate].
+  destruct (overlap_loop cf true (cell_get (g_cells g2) p) g2 _) as [g3 r3|g3 r3|g3 r3] eqn:H1;
+    [| intros _; cbn; apply shares_b_inactive; eapply overlap_loop_dead_inactive; exact H1
+     | cbn; discriminate].
+  destruct (script cf g3 (ps_count st)) as [moves|]; [|cbn; discriminate].
+  destruct (baddies_loop f cf 0 moves g3) as [g4|g4]; [|cbn; discriminate].
+  destruct (pac_cell cf g4) as [p'|] eqn:HP; [|cbn; discriminate].
+  destruct (overlap_loop cf false (cell_get (g_cells g4) p') g4 r3) as [g5 r5|g5 r5|g5 r5] eqn:H2.
+  - intros _. cbn. destruct (overlap_loop_false_go _ _ _ _ _ _ H2) as (E & _ & HX). subst g5.
+    unfold shares_b. rewrite HP, HX. apply andb_false_r.
+  - intros _. cbn. apply shares_b_inactive. eapply overlap_loop_dead_inactive; exact H2.
+  - cbn; discriminate.
+Qed.
+
+(* ---- the per-record checker accepts every transition of the model -------------------------------- *)
+Theorem pm_step_chk_prec f cf st acts :
+  pac_not_baddie cf ->
+  ps_bad st = false -> ps_bad (pm_step_gen f cf st acts) = false ->
+  ginvb (ps_grid (pm_step_gen f cf st acts)) = 0 ->
+  chk_prec cf (Some (pac_active cf (ps_grid st), ps_count st)) 1
+           (ps_grid (pm_step_gen f cf st acts)) (ps_count (pm_step_gen f cf st acts)) = 0.
+Proof.
+  intros NB Hb Hb' Hg. unfold chk_prec. rewrite Hg. cbn [Z.eqb negb].
+  rewrite (pm_step_clause_2611 f cf st acts Hb Hb').
+  destruct (pac_active cf (ps_grid st)) eqn:Ha; [|reflexivity].
+  rewrite (pm_step_clause_2612 f cf st acts NB Hb Hb' Ha), Z.eqb_refl. reflexivity.
+Qed.
+
+Theorem pm_reset_chk_prec cf st prev :
+  ginvb (ps_grid (pm_reset cf st)) = 0 ->
+  chk_prec cf prev 0 (ps_grid (pm_reset cf st)) (ps_count (pm_reset cf st)) = 0.
+Proof.
+  intros Hg. unfold chk_prec. rewrite Hg, pm_reset_count. reflexivity.
+Qed.
+
 (* along the managers' reachability relation of the simulation (steps, getters, resets):
    step_count never decreases between resets -- stated per transition above; here the reset clause for
    the packaged simulation record *)
